@@ -569,6 +569,63 @@ def rule_q(rep, g):
         rep.anchor_missing(rule, 'escaped(..) string lexemes (found %d, expected 2)' % n)
 
 
+def rule_n(rep, g):
+    """R15.n - numeric lexemes keep their signs: a double may start with a sign, and the exponent after `e` may carry one
+    (`1e-9`, `2.5E+3` are in the grammar); an integer has a negative form"""
+    rule = 'R15.n'
+
+    def accepts_minus(n, stack=()):
+        k = n.kind
+        if k == 'tag':
+            return (n.text or '').startswith('-')
+        if k == 'cc':
+            m = re.match(r"(one_of|char)\('(.*)'\)$", n.text or '')
+            return bool(m) and '-' in m.group(2)
+        if k == 'ref':
+            if n.text in stack:
+                return False
+            return any(accepts_minus(t, stack + (n.text,)) for t in g.trees.get(n.text, []))
+        if k in ('opt', 'many0', 'many1', 'map', 'recognize', 'complete', 'cut'):
+            return bool(n.kids) and accepts_minus(n.kids[0], stack)
+        if k == 'alt':
+            return any(accepts_minus(c, stack) for c in n.kids)
+        if k == 'seq':
+            for c in n.kids:
+                if accepts_minus(c, stack):
+                    return True
+                if not g.attr('nullable', c):
+                    return False
+            return False
+        return False
+    ts = g.trees.get('DoubleConstant') or []
+    if not ts:
+        rep.anchor_missing(rule, 'DoubleConstant')
+        return
+    key = rule + '|DoubleConstant leading sign'
+    if accepts_minus(ts[0]):
+        rep.ok(rule, key, 'a double may start with -', g.bodies['DoubleConstant'].loc())
+    else:
+        rep.bad(rule, key, g.bodies['DoubleConstant'].loc(), 'DoubleConstant no longer accepts a leading minus sign')
+    nexp = 0
+    for n in g.walk(ts[0]):
+        if n.kind == 'tag' and (n.text or '').lower() == 'e' and n.parent is not None and n.parent.kind == 'seq':
+            nexp += 1
+            nxt = n.parent.kids[n.idx + 1] if n.idx + 1 < len(n.parent.kids) else None
+            key = '%s|DoubleConstant exponent %d' % (rule, nexp)
+            if nxt is not None and accepts_minus(nxt):
+                rep.ok(rule, key, 'the exponent may be negative', g.bodies['DoubleConstant'].loc())
+            else:
+                rep.bad(rule, key, g.bodies['DoubleConstant'].loc(), 'the exponent of a double is parsed by %r, which accepts no sign: `1e-9` is no longer one double (it is cut after the mantissa, or the document stops parsing)' % (nxt,))
+    if nexp < 1:
+        rep.anchor_missing(rule, 'exponent marker in DoubleConstant')
+    it = g.trees.get('IntConstant') or []
+    key = rule + '|IntConstant negative form'
+    if it and accepts_minus(it[0]):
+        rep.ok(rule, key, 'an integer may be negative', g.bodies['IntConstant'].loc())
+    else:
+        rep.bad(rule, key, g.bodies['IntConstant'].loc() if 'IntConstant' in g.bodies else '', 'IntConstant no longer accepts a minus sign')
+
+
 def rule_s(rep, g):
     """R15.s - the IDL leaves list separators free (comma, semicolon or none): every use of list_separator in the
     grammar is optional. A separator that is the mandatory element of a sequence or the `sep` of separated_list0/1
@@ -626,5 +683,6 @@ def run(ctx):
     rule_f(rep, g, prog, cg)
     rule_s(rep, g)
     rule_q(rep, g)
+    rule_n(rep, g)
     rule_g(rep, g)
     return rep
